@@ -11,8 +11,7 @@ namespace BtcVerif.Model.HB
 
 /-- one row of the access table produced by the SSA summary -/
 structure AccessRow where
-  loc : String        -- package-level variable, or `rpc.Connection.<field>`
-  fn : String         -- the function containing the access
+  loc : Nat           -- id of the package-level variable or `rpc.Connection.<field>` (names: Gen.locNames)
   isWrite : Bool
   lazy : Bool         -- the write is of the form `if x.f == nil { x.f = … }` (possibly through calls)
   inInit : Bool       -- inside package initialisation
@@ -23,16 +22,16 @@ structure AccessRow where
     post-initialisation access (read or write) is made under the mutex, or (c) the only
     post-initialisation writes are lazy initialisations and initialisation itself forces one (so
     that at run time the nil test fails for every later caller and only reads remain) -/
-def locOk (rows : List AccessRow) (loc : String) : Bool :=
+def locOk (rows : List AccessRow) (loc : Nat) : Bool :=
   let mine := rows.filter (fun r => r.loc == loc)
   mine.all (fun r => !r.isWrite || r.inInit) ||
   mine.all (fun r => r.inInit || r.guarded) ||
   (mine.all (fun r => !r.isWrite || r.inInit || r.lazy) && mine.any (fun r => r.isWrite && r.lazy && r.inInit))
 
-def locs (rows : List AccessRow) : List String := (rows.map (·.loc)).eraseDups
+def locs (rows : List AccessRow) : List Nat := (rows.map (·.loc)).eraseDups
 
 /-- the whole table, minus the documented global mutation(s) the property excludes -/
-def tableOk (rows : List AccessRow) (excluded : List String) : Bool :=
+def tableOk (rows : List AccessRow) (excluded : List Nat) : Bool :=
   ((locs rows).filter (fun l => !excluded.contains l)).all (locOk rows)
 
 /-! ### the happens-before model -/
